@@ -19,6 +19,9 @@ Streams
       final one {230, multi-line 230 with a free continuation line, 530, 421, 333, nothing (EOF)},
       plus malformed scripts; passwords with marker twins, several users / accounts; model fn 6
       (client_login_run on the login PROGRAM regenerated from client.py by gen_logging)
+  U   verb spellings from the full Unicode case-mapping closure of "pass" (every character that lower / casefold /
+      upper / NFKC / NFKD send to a piece of "pass", computed from the interpreter), sent as raw lines after
+      USER; judged by "answered as a login (not 502) => censored"; compared with model fn 2
   X   outside the property's domain, observed and reported, never a violation: TAB separator,
       leading blank, LF inside the password, undecodable bytes, over-long line (for the last two
       the marker oracle is still evaluated: the traceback must not carry the content)
@@ -58,7 +61,7 @@ LEVEL_TEXT = (
     "Theorems C20_server_log_hides_password, C20_server_stream_hides_password, C20_server_session_hides_password, "
     "C20_client_log_hides_password, C20_client_login_records_hide_password, C20_client_login_hides_password_any_server (the login "
     "program regenerated from client.py against every script of reply lines), C20_login_program_condition_suffices, C20_login_session_hides_password, "
-    "C20_outcome_independent, C20_pass_reply_fixed, C20_censored_args_are_stars, C20_pass_spellings and the checker "
+    "C20_outcome_independent, C20_pass_reply_fixed, C20_censored_args_are_stars, C20_pass_spellings, C20_other_verbs_are_not_logins and the checker "
     "soundness theorems C20_every_site_hides_server/client are proved for every verb spelling the server dispatches as "
     "PASS, every password string (LF-free at stream level), every line ending, every session prefix/suffix and user table "
     "(Closed under the global context); C20_check_log_sites, C20_modelled_sites_match and C20_pass_facts are closed "
@@ -445,7 +448,10 @@ def run_client_session(users_spec, user, password, debug=False, fault=False, log
         return outcome
 
     with Capture() as cap:
-        outcome = simnet.run(main, wall_timeout=60)
+        try:
+            outcome = simnet.run(main, wall_timeout=20)
+        except Exception as e:  # a hang (wall timeout) or crash of the implementation: an outcome, never an abort
+            outcome = "harness:" + type(e).__name__
     return outcome, [canon(r) for r in cap.records]
 
 
@@ -471,7 +477,10 @@ def run_raw_session(users_spec, chunks, debug=False, fault=False):
         return replies
 
     with Capture() as cap:
-        replies = simnet.run(main, wall_timeout=60)
+        try:
+            replies = simnet.run(main, wall_timeout=20)
+        except Exception as e:  # hang / crash: an outcome, never an abort
+            replies = [["harness:" + type(e).__name__]]
     return replies, [canon(r) for r in cap.records]
 
 
@@ -670,7 +679,7 @@ def run_scripted_login(groups, user, password, account, debug=False, timeout=Non
         return outcome, [l for l in sent if l]
 
     with Capture() as cap:
-        outcome, sent = simnet.run(main, wall_timeout=60)
+        outcome, sent = simnet.run(main, wall_timeout=20)
     return outcome, sent, [canon(r) for r in cap.records[state["n0"] :]]
 
 
@@ -699,6 +708,93 @@ def scripted_pair(rng, groups, user, p, account, debug=False, timeout=None):
     return runs, fails
 
 
+
+# ---------------------------------------------------------------------------- U: the Unicode closure of "pass"
+_CLOSURE = {}
+
+
+def pass_closure():
+    """piece of "pass" -> the characters that SOME case mapping of the interpreter (lower, casefold, upper().lower(),
+    upper().casefold(), NFKC / NFKD + casefold) sends to that piece: U+00DF -> "ss", U+017F -> "s", fullwidth and
+    mathematical letters, U+3380 -> "pa" ...  Computed from the interpreter over all code points, once."""
+    if _CLOSURE:
+        return _CLOSURE
+    import unicodedata
+
+    target = "pass"
+    subs = {target[i:j] for i in range(4) for j in range(i + 1, 5)}
+    fs = [str.lower, str.casefold, lambda c: c.upper().lower(), lambda c: c.upper().casefold(),
+          lambda c: unicodedata.normalize("NFKC", c).casefold(), lambda c: unicodedata.normalize("NFKD", c).casefold()]
+    for cp in range(0x110000):
+        if 0xD800 <= cp < 0xE000:
+            continue
+        c = chr(cp)
+        for f in fs:
+            m = f(c)
+            if m in subs:
+                _CLOSURE.setdefault(m, set()).add(c)
+    for k in _CLOSURE:
+        _CLOSURE[k] = sorted(_CLOSURE[k])
+    return _CLOSURE
+
+
+def segmentations(t, pieces):
+    if not t:
+        yield []
+    for k in range(1, len(t) + 1):
+        if t[:k] in pieces:
+            for r in segmentations(t[k:], pieces):
+                yield [t[:k]] + r
+
+
+def closure_spellings(rng, extra=0):
+    """every spelling of "pass" with exactly ONE non-ASCII character of the closure (each such character at each
+    position it can take, the ASCII rest in random case) + `extra` random spellings with several of them"""
+    cl = pass_closure()
+    na = {k: [c for c in v if ord(c) > 127] for k, v in cl.items()}
+    out = []
+    for seg in segmentations("pass", cl):
+        for i, piece in enumerate(seg):
+            for c in na.get(piece, []):
+                out.append("".join(c if j == i else rng.choice([q, q.upper()]) for j, q in enumerate(seg)))
+    segs = list(segmentations("pass", cl))
+    for _ in range(extra):
+        seg = rng.choice(segs)
+        out.append("".join(rng.choice(cl[q]) for q in seg))
+    seen, uniq = set(), []
+    for v in out:
+        if v not in seen and not v.isascii():
+            seen.add(v)
+            uniq.append(v)
+    return uniq
+
+
+def run_spelling_session(V, q):
+    """USER u, then `V q` as a raw line: (handled as a login?, reply lines to that line, canon records)"""
+    chunks = [b"USER u\r\n", (V + " " + q + "\r\n").encode("utf-8")]
+    replies, cs = run_raw_session([("u", q.rstrip())], chunks)
+    last = replies[-1] if len(replies) == 3 else []
+    codes = simnet.final_codes(last)
+    return bool(codes) and codes[0] != "502", last, cs
+
+
+def spelling_verdict(rng, V, q):
+    """the oracle for one spelling: a line the server ANSWERS AS A LOGIN (anything but 502 not implemented) must be
+    censored -- no marker character in any record, equal transcripts for two arguments of equal length.
+    q is a marker password.  Returns (handled, reply, records, failures)"""
+    handled, reply, cs = run_spelling_session(V, q)
+    fails = []
+    if handled:
+        hit = has_marker(cs)
+        if hit:
+            fails.append(("leak", hit))
+        q2 = twin(rng, q)
+        h2, reply2, cs2 = run_spelling_session(V, q2)
+        if (h2, reply2) != (handled, reply) or transcript(cs) != transcript(cs2):
+            fails.append(("twin", first_diff(transcript(cs), transcript(cs2))))
+    return handled, reply, cs, fails
+
+
 # ---------------------------------------------------------------------------- the check
 def correspondence(ctx, budget=None):
     rng = ctx.rng
@@ -716,7 +812,9 @@ def correspondence(ctx, budget=None):
         "replies {331, 332, two-line 331} followed by {230, four-line 230, 530, 421, 333, EOF}, plus malformed scripts (code change "
         "inside a multi-line reply, non-numeric / short / empty lines, 120), plus a client with socket_timeout=3 against every script of "
         "depth <= 2 with a 6 s silence at every position and 1.5 s silences before every reply; thorough: + random words; users x accounts rotate, "
-        "each script run with a password and its marker twin. "
+        "each script run with a password and its marker twin; "
+        "U: every spelling of 'pass' with one non-ASCII character of the interpreter's case-mapping / compatibility closure at each position "
+        "(+ random multi-character ones), raw session USER u / <spelling> <marker>, oracle: answered other than 502 => no marker, twin-equal. "
         "A case is non-trivial when its (stream, verb/outcome, password) key is new."
     )
     xcheck = []
@@ -1044,6 +1142,42 @@ def correspondence(ctx, budget=None):
         ctx.sample({"stream": "S3", "script": groups, "user": user, "password": q, "account": account, "outcome": outcome,
                     "records": [list(c[:5]) for c in cs if c[0] != "asyncio"][:12]})
 
+    # ------------------------------------------------------------ U: spellings from the Unicode closure of "pass"
+    spell = closure_spellings(rng, extra=(150 * scale if (thorough or budget) else 24))
+    u_runs = []
+    n_handled = 0
+    for i, V in enumerate(spell):
+        q = twin(rng, s3_pws[i % len(s3_pws)])
+        ctx.case(("U", V, q))
+        ctx.traces_impl += 1
+        try:
+            handled, reply, cs, fails = spelling_verdict(rng, V, q)
+        except Exception as e:  # harness-level failure: observation
+            ctx.disagree("U-run", [V, q], "a verdict", f"{type(e).__name__}: {e}"[:200])
+            continue
+        n_handled += handled
+        u_runs.append((V, q, reply, cs))
+        for kind, info in fails:
+            rp = {"key": "c20-unicode-spelling-" + kind, "driver": "raw", "verb": V, "verb_code_points": [hex(ord(c)) for c in V],
+                  "mappings": {"lower": V.lower(), "casefold": V.casefold(), "upper.lower": V.upper().lower()},
+                  "password": q, "reply": reply}
+            if kind == "leak":
+                rp.update({"logger": info[0][0], "record": list(info[0][:5]), "found": info[1]})
+                ctx.violation("the server answers a non-ASCII spelling of PASS as a login and logs its argument", rp)
+            else:
+                rp["diff"] = info
+                ctx.violation("the server answers a non-ASCII spelling of PASS as a login and its log depends on the argument", rp)
+    mo = ctx.model([(2, [censor, enc_users([("u", q.rstrip())]), conn_addr(split_loggers(cs)[0])[0], conn_addr(split_loggers(cs)[0])[1],
+                         ["USER u\r\n", V + " " + q + "\r\n"]]) for V, q, reply, cs in u_runs])
+    for (V, q, reply, cs), o in zip(u_runs, mo):
+        ms = [mrec(x) for x in o]
+        if not recs_match(ms, [irec(c) for c in session_body(split_loggers(cs)[0])]):
+            ctx.disagree("U-server-records", [V, q], ms, [irec(c) for c in session_body(split_loggers(cs)[0])])
+    ctx.count("U_closure_spellings", len(spell))
+    ctx.count("U_spellings_answered_as_login", n_handled)
+    ctx.extra["unicode_closure_of_pass"] = {k: len(v) for k, v in pass_closure().items()}
+    obs_u = {"spellings": len(spell), "answered_as_login": n_handled, "answered_502_outside_the_domain": len(u_runs) - n_handled}
+
     # ------------------------------------------------------------ X: outside the domain (observations)
     obs = {}
     mk = "".join(MARK[:6])
@@ -1073,6 +1207,7 @@ def correspondence(ctx, budget=None):
                 "the traceback logged by the dispatcher carries characters of the PASS argument",
                 {"key": "c20-traceback-leak", "case": name, "record": list(hit[0][:5]), "found": hit[1]},
             )
+    obs["unicode-closure-spellings"] = obs_u
     ctx.extra["out_of_domain_observations"] = obs
     ctx.extra["twin_differences_attributable_to_encoded_length_only"] = dict(WIDTH_OBS)
 
@@ -1154,6 +1289,14 @@ def replay(ctx, data):
                 print(c[:5])
             res.append(cs)
         return has_marker(res[1]) is None and transcript(res[0]) == transcript(res[1])
+    if key in ("c20-unicode-spelling-leak", "c20-unicode-spelling-twin"):
+        handled, reply, cs, fails = spelling_verdict(rng, r["verb"], r["password"])
+        print("verb", [hex(ord(c)) for c in r["verb"]], "answered as a login:", handled, reply)
+        for c in cs:
+            print("  ", c[:5])
+        for f in fails:
+            print("ORACLE:", f[0])
+        return not fails
     if key in ("c20-login-script-leak", "c20-login-script-twin"):
         p = r.get("twin") or r["password"]
         runs, fails = scripted_pair(rng, r["script"], r["user"], p, r["account"], timeout=r.get("socket_timeout"))
